@@ -206,6 +206,17 @@ func (g *seqGen) simpleOp(nested bool, k int) string {
 		return fmt.Sprintf("setmax %d", pick(r, []int{0, 1, 2, g.max, g.max * 2, g.max + 1}))
 	case n < 92 && !nested:
 		return "invalall"
+	case n < 95 && g.withExp && !nested:
+		// an iteration during which the clock passes deadlines: nothing may be yielded after its expiration time
+		d := g.posdur()
+		if d > 1<<40 {
+			d = 1 << 40
+		}
+		if g.clock > math.MaxInt64-d-(1<<41) {
+			return fmt.Sprintf("get %d", k)
+		}
+		g.clock += d // the advance is part of the operation
+		return fmt.Sprintf("iteradv %s %d", pick(r, []string{"all", "keys", "values"}), d)
 	default:
 		return fmt.Sprintf("get %d", k)
 	}
@@ -364,6 +375,9 @@ func tblLine(r *rng, name string, nkeys int, g *seqGen, allowKeep bool) string {
 			d := g.posdur()
 			if allowKeep && r.chance(0.4) {
 				d = 0
+			}
+			if !allowKeep && r.chance(0.2) {
+				d = 0 // "no deadline" on creation: the entry gets one later (SetExpiresAfter / a read / an update), or never
 			}
 			parts = append(parts, fmt.Sprintf("%d=%d", k, d))
 		}
